@@ -19,7 +19,8 @@ import (
 
 // NStep is one environment action of a renewal scenario: advance the fake clock by D ns, or (D == 0)
 // switch the trust-anchor bundle to version Anch.
-// W: advance exactly to the deadline of the armed timer (no overshoot).
+// W: advance exactly to the deadline of the armed timer (no overshoot); after a failed renewal at most
+// to 10 s after the failure.
 // Ans: the issuer answers the outstanding request (only meaningful in a Hold scenario).
 type NStep struct {
 	D    int64 `json:"d,omitempty"`
@@ -72,6 +73,12 @@ type nOutcome struct {
 	Hang         string
 	Panic        string
 	RunRet       string
+	// ReturnedAlive: Run returned BEFORE the harness cancelled its context (observed while the
+	// scenario was still running); ReturnedAt: number of environment actions performed by then;
+	// ReturnedReqs: number of issuer requests made by then.
+	ReturnedAlive bool
+	ReturnedAt    int
+	ReturnedReqs  int
 }
 
 func readPub(target, when string, reqs []reqRec) pubObs {
@@ -238,6 +245,9 @@ func runRenew(sc NScenario, ca *fakeCA, workdir string, deadline, callDeadline t
 				return true
 			case err := <-runDone:
 				returned = true
+				out.ReturnedAlive = true // ctx is cancelled only after the last step (below)
+				out.ReturnedAt = len(out.Acts)
+				out.ReturnedReqs = len(is.requests())
 				if err != nil {
 					out.RunRet = "err"
 					if strings.HasPrefix(err.Error(), "panic:") {
@@ -363,6 +373,17 @@ func runRenew(sc NScenario, ca *fakeCA, workdir string, deadline, callDeadline t
 				if armed && !returned && !outstanding {
 					d = dl.Sub(clk.Now())
 				}
+				// … but never beyond the instant at which the property itself says something is due:
+				// 10 s after the newest request, if that was a failed renewal (on a tree that arms its
+				// retry timer for exactly 10 s this is the armed deadline; on a tree that armed a longer
+				// timer, no timer, or whose Run has returned, the clock still stops at +10 s and the
+				// retry monitor sees a reading at which the retry was due)
+				if rq := is.requests(); !outstanding && len(rq) >= 2 && !rq[len(rq)-1].Answered.IsZero() && !sc.good(rq[len(rq)-1]) {
+					due := rq[len(rq)-1].Answered.Add(10 * time.Second)
+					if due.After(clk.Now()) && (returned || !armed || due.Before(dl)) {
+						d = due.Sub(clk.Now())
+					}
+				}
 				out.Acts = append(out.Acts, "w")
 			} else {
 				out.Acts = append(out.Acts, "a:"+strconv.FormatInt(st.D, 10))
@@ -462,6 +483,8 @@ func modelLine(sc NScenario, o nOutcome) string {
 			script = append(script, fmt.Sprintf("o:%d:%d", nb, na))
 		case kAnchorErr, kWriteErr:
 			script = append(script, fmt.Sprintf("a:%d:%d", nb, na))
+		case kFail:
+			script = append(script, errModelWord(it.Err)) // the error kind is a parameter of the model's script
 		default:
 			script = append(script, "f")
 		}
